@@ -410,7 +410,9 @@ class HttpProtocolHandler(BaseTcpServerHandler[HttpClientConnection]):
                 if len(ev) == 0:
                     continue
                 self.work.flush(self.flags.max_sendbuf_size)
-        except BrokenPipeError:
+        except OSError:
+            # Client is gone (reset, broken pipe, ...).  Nothing more can
+            # be flushed, rest of the shutdown sequence must still run.
             pass
         finally:
             self.selector.unregister(self.work.connection)
